@@ -453,6 +453,9 @@ func isEffect(e *spi.Event) bool {
 func (m *Monitors) PostDelivery(d *deliveryCtx, effects []spi.Event, panicked bool) {
 	n, f := d.n, d.f
 	m.cur = nil
+	if n.pendTrig != nil || n.pendSync != nil || n.handSync != nil {
+		d.handoff = true // (the main loop acted while the handler was running: the node was told to leave its position half-way through)
+	}
 	if m.probe[n.Id] {
 		delete(m.probe, n.Id)
 		m.probeStorage(n)
